@@ -236,6 +236,26 @@ pub fn non_contiguous_p4() {
     }
 }
 
+/// C03/C10/C20 (bounded: one table): non-contiguous decoder model at FULL precision (P == Probability::BITS,
+/// where the closing cdf entry wraps to 0): every quantile, also those of the last symbol, is
+/// answered in bounds with the interval that holds it and the symbol that labels it.
+#[cfg_attr(kani, kani::proof)]
+#[cfg_attr(kani, kani::unwind(8))]
+pub fn non_contiguous_full_precision_p8() {
+    const P: usize = 8;
+    let probs: [u8; 3] = [100, 100, 56];
+    let syms: [u16; 3] = [10, 20, 30];
+    let infer: bool = any();
+    let np = if infer { 2 } else { 3 };
+    let d = match NonContiguousCategoricalDecoderModel::<u16, u8, Vec<(u8, u16)>, P>::from_symbols_and_nonzero_fixed_point_probabilities(syms.iter().copied(), &probs[..np], infer) {
+        Ok(d) => d, Err(()) => { assert!(false, "C19: valid full-precision table refused"); return; } };
+    let q: u8 = any();
+    let (s, c, pr) = d.quantile_function(q);
+    let i = if q < 100 { 0 } else if q < 200 { 1 } else { 2 };
+    assert!(c <= q && (q as u32) < c as u32 + pr.get() as u32, "C03/C10: quantile not inside the returned interval (non-contiguous, full precision)");
+    assert!(s == syms[i] && pr.get() == probs[i] && c as u32 == 100 * i as u32, "C03/C10: non-contiguous decoder returns the wrong entry at full precision");
+}
+
 // ------------------------------------------------------------------ float tables (bounded: <= 3 entries, f32)
 
 /// C19/C03/C20 (bounded): from_floating_point_probabilities_fast over ALL f32 bit patterns of
